@@ -32,6 +32,34 @@ theorem keepers_keepValidity : (Generated.C12.keepers.all fun m => KeepsValidity
 /-- the `x / y / r / t` setters only store their argument (so `self.x = v` is `self._x = v`) -/
 theorem setters_trivial : Generated.C12.settersTrivial = true := by decide
 
+/-- every branch of the slice arithmetic of `crop` in the current source keeps exactly the rows `[left, rows - right)` and
+    the columns `[top, cols - bottom)` — the window `Model.C12.cropBox` computes — for EVERY shape and every number of
+    leading / trailing all-invalid rows and columns that leaves at least one valid row and column -/
+theorem crop_slices_are_box (left right top bottom rows cols : Int)
+    (hl : 0 ≤ left) (hr : 0 ≤ right) (hrows : left + right < rows)
+    (ht : 0 ≤ top) (hb : 0 ≤ bottom) (hcols : top + bottom < cols) :
+    Generated.C12.cropRowLo left right top bottom rows cols = Model.C12.cropRowLo left right top bottom rows cols ∧
+    Generated.C12.cropRowHi left right top bottom rows cols = Model.C12.cropRowHi left right top bottom rows cols ∧
+    Generated.C12.cropColLo left right top bottom rows cols = Model.C12.cropColLo left right top bottom rows cols ∧
+    Generated.C12.cropColHi left right top bottom rows cols = Model.C12.cropColHi left right top bottom rows cols := by
+  refine ⟨?_, ?_, ?_, ?_⟩ <;>
+    simp only [Generated.C12.cropRowLo, Generated.C12.cropRowHi, Generated.C12.cropColLo, Generated.C12.cropColHi,
+      Model.C12.cropRowLo, Model.C12.cropRowHi, Model.C12.cropColLo, Model.C12.cropColHi, normIdx] <;>
+    (repeat' split) <;> omega
+
+/-- the window of the model's `cropBox` is `[left, rows - right) × [top, cols - bottom)` with `left / right / top / bottom`
+    the `argmax` of the row / column "has a valid sample" vectors and of their reversals (what `crop` computes) -/
+theorem cropBox_window (v : Nat → Nat → Bool) (rows cols r0 r1 c0 c1 : Nat)
+    (hb : cropBox v rows cols = some (r0, r1, c0, c1)) :
+    r0 = argmaxB (rowAny v rows cols) ∧ r1 = rows - argmaxB (rowAny v rows cols).reverse ∧
+    c0 = argmaxB (colAny v rows cols) ∧ c1 = cols - argmaxB (colAny v rows cols).reverse := by
+  simp only [cropBox] at hb
+  split at hb
+  · cases hb
+  · simp only [Option.some.injEq, Prod.mk.injEq] at hb
+    obtain ⟨rfl, rfl, rfl, rfl⟩ := hb
+    exact ⟨rfl, rfl, rfl, rfl⟩
+
 /-! ## coherence for every history -/
 
 section coherence
